@@ -15,13 +15,17 @@ Combos == << <<0, -1>>, <<1, -1>>, <<2, -1>>, <<0, 0>>, <<1, 0>>, <<2, 0>>, <<0,
              <<0, 3>>, <<1, 3>>, <<2, 3>> >>
 MC_CfgsAll12 == {[limit |-> Combos[i][1], keep |-> Combos[i][2], force |-> ((i + Seed) % 2 = 0),
                   isn |-> IsnSeq[((i + Seed) % Len(IsnSeq)) + 1], remove |-> ((i + Seed) % 4 # 0)] : i \in 1..Len(Combos)}
-\* the quick tier takes 6 of the 12 (which ones rotates with the seed)
+\* the quick tier takes 4 of the 12 (which ones rotates with the seed)
 MC_CfgsQuick == {[limit |-> Combos[i][1], keep |-> Combos[i][2], force |-> ((i + Seed) % 2 = 0),
                   isn |-> IsnSeq[((i + Seed) % Len(IsnSeq)) + 1], remove |-> ((i + Seed) % 4 # 0)] :
-                 i \in {j \in 1..Len(Combos) : (j + Seed) % 2 = 0}}
-\* thorough grid: the full product with ReassemblyComplete answering true, plus the quick grid answering false
-MC_CfgsThorough == [limit : {0, 1, 2}, keep : {-1, 0, 2, 3}, force : BOOLEAN, isn : {0} \cup WrapIsns, remove : {TRUE}]
+                 i \in {j \in 1..Len(Combos) : (j + Seed) % 3 = 0}}
+\* thorough grid: the full product of limits, KeepFrom policies and forced start over ISN 0 and three seed-rotated wrap
+\* positions with ReassemblyComplete answering true, plus the twelve seed-rotated configurations answering false
+ThoroughIsns == {0} \cup {M - 1 - ((Seed + j) % (L + 2)) : j \in {0, 2, 4}}
+MC_CfgsThorough == [limit : {0, 1, 2}, keep : {-1, 0, 2, 3}, force : BOOLEAN, isn : ThoroughIsns, remove : {TRUE}]
                    \cup {[c EXCEPT !.remove = FALSE] : c \in MC_CfgsAll12}
+\* simulation: every ISN position
+MC_CfgsEverything == [limit : {0, 1, 2}, keep : {-1, 0, 2, 3}, force : BOOLEAN, isn : {0} \cup WrapIsns, remove : BOOLEAN]
 MC_CfgsSmoke == [limit : {0, 1}, keep : {-1, 2}, force : {FALSE, TRUE}, isn : {M - 2}, remove : {TRUE}]
 
 \* configurations for the defect-finding runs (pre-fix shapes of the code switched on through constants)
